@@ -34,6 +34,16 @@ TEXT = {
             "seeded history simulation with ledger origins"),
     "C13": ("§3 C13", "Buffers of every pair of compiled capacities and rotations are compared (==, !=, partial_cmp, cmp, Hash through a recording hasher, == with slices/arrays/refs, Debug under 8 flag sets) against the model sequences. Exploration.",
             "seeded simulation of buffer pairs against sequence model"),
+    "C14": ("§3 C14", "A byte buffer used as a lossy pipe between a producer and a consumer whose interleaving (runs, stalls) the seeded scheduler chooses; every std::io required and provided method, io::copy in both directions with faulty stream peers (short transfers, Interrupted, Ok(0), hard errors), all checked against a keep-newest-N byte-stream model; never Err, never panics, for N in {0,1,2,3,4,5,8,16,64}. Exploration.",
+            "deterministic simulation of producer/consumer schedules with faulty stream peers against a byte-stream model"),
+    "C16": ("§3 C16", "The same script is executed through std::io, embedded_io and embedded_io_async (own poll-once executor, Pending is a violation); per-step traces (counts, bytes, contents) must be identical and each must match the byte model. Builds: both features (quick), plus each feature alone (thorough). Exploration.",
+            "differential simulation of one script across three trait families with a poll-once executor"),
+    "C17": ("§3 C17", "The simulator owns the global allocator: allocations inside an operation window (outside harness-owned hooks) are counted for every non-panicking call in the deque, io and zst scenarios, in builds with features std, alloc and none; plus cargo build of the crate itself with no features and with alloc only (compile-time half, labelled as such). Exploration.",
+            "allocator seam: counting global allocator around every simulated call + feature-set builds"),
+    "C18": ("§3 C18", "The same seeds (fault-free and all fault families, deque + io + zst scenarios) are executed on nightly with default features and on nightly with the `unstable` feature; per-run digests of the full observable trace (returns, contents, panics, lifecycle events) must be equal; a differing run is shrunk by subprocess ddmin and reported with the first diverging event. Exploration.",
+            "differential replay of identical seeded schedules and fault sequences on two builds"),
+    "C19": ("§3 C19", "A drop-counting zero-sized element with capacities {1, 2, 2^32±1, 2^32, 2^63±1, 2^63, usize::MAX-1, usize::MAX}, front position driven to within 3 slots of 0 and of N, lengths <= 10, all operations whose cost is independent of N; count model (lengths, return shapes, documented panics, created-destroyed = live) with overflow checks on. Exploration.",
+            "seeded history simulation with a count model at extreme capacities"),
     "C20": ("§3 C20", "Relocation monitor on every fault-free step: addresses of surviving elements (by id) before and after the call, compared with the bound the property states for the operation. Exploration.",
             "seeded history simulation with element-relocation monitor"),
 }
@@ -43,11 +53,6 @@ NA = [
 ]
 
 PENDING = {
-    "C14": "check under construction in this session (io scenario); will be claimed once built",
-    "C16": "check under construction in this session (io scenario, embedded-io builds)",
-    "C17": "check under construction in this session (allocation watch + no_std builds)",
-    "C18": "check under construction in this session (differential builds)",
-    "C19": "check under construction in this session (zst scenario)",
 }
 
 
